@@ -3,7 +3,7 @@ NOTES = ("All checks run /verif/check <id>, which imports eudoxia from /repo's w
          "and explores it exhaustively within the bounds printed in each evidence file. known_findings.json lists recorded defects "
          "(fixed ones are 'fix:' commits in /repo). No source hooks are needed: instrumentation wraps public entry points from outside.")
 T_SIM = "stateless deviation-bounded exhaustive exploration of command sequences on the real executor, lock-step against an executable reference model (exact rationals)"
-TRUST = "Trusted: Python semantics, the reference models in mc/refmodel.py (transcribed from README/property text), exact-arithmetic alphabets (dyadic values) for lock-step comparison. Bounded: <=4 pipelines, <=4 operators, <=3 pools, horizons <=40 ticks."
+TRUST = "Trusted: Python semantics, the reference models in mc/refmodel.py (transcribed from README/property text), exact-arithmetic alphabets (dyadic values) for lock-step comparison. Bounded: <=4 pipelines, <=4 operators, <=3 pools, horizons <=40 ticks in the exhaustive drivers; single deterministic scale executions (many pipelines / containers / suspensions / ticks) whose size follows the numeric constants of the tree under check (mc/scale.py), up to stated caps."
 CHECKS = [
     dict(property_id="C02",
          technique="explicit-state BFS to fixpoint over the real lifecycle object (visible-state key, and a history-sensitive key: per operator the set of state changes made so far) + bounded-depth stateless enumeration of request sequences; transition-log monitors on exhaustively enumerated simulations",
@@ -29,7 +29,7 @@ CHECKS = [
          note=TRUST),
 ]
 
-T_F5 = "exhaustive enumeration of a scenario alphabet (arrivals x priorities x DAG shapes x profiles x pools x mode x tick rate) through the real scheduler + real executor, per-round policy predicates and lock-step reference executor"
+T_F5 = "exhaustive enumeration of a scenario alphabet (arrivals x priorities x DAG shapes x profiles x pools x mode x tick rate) through the real scheduler + real executor, per-round policy predicates and lock-step reference executor; single deterministic scale executions (thousands of pipelines, very long chains) sized from the numeric constants of the tree under check"
 CHECKS += [
     dict(property_id="C01", technique="exhaustive enumeration of all DAGs on <=5/6 nodes (iteration) + deviation-bounded exploration of admissible and inadmissible command sequences + exhaustive scheduler scenario spaces; transition-log ordering monitor",
          text="Every DAG on <=5 (quick) / <=6 (thorough, 33 867) operators iterated through the real Pipeline; F1 command sequences incl. child-before-parent packings on chain/diamond/join/fork; all five shipped schedulers on all six DAG shapes with OOM->retry and preemption->resume. Every ->RUNNING in the transition log must be preceded by ->COMPLETED of every parent; inadmissible starts must raise.",
